@@ -506,15 +506,37 @@ func runCorr(sh *shard, c *corrCase, expSnaps []string, sum *sumT) {
 	}
 	ctx, cancel := context.WithCancel(context.Background())
 	defer cancel()
+	if len(c.seq) > 0 && c.seq[0].kind == 'c' && c.expected() == 0 {
+		// a context end that is the first item precedes the call when the call targets nothing (its exhaustion
+		// test at the top of the loop then sees the ended context: Driver/Corr.lean); with targets it is issued
+		// after snapshot 0, like every later one, so that snapshot 0 is deterministic
+		cancel()
+	}
 	var obj corrObj
-	func() {
+	started := make(chan string, 1)
+	go func() {
+		// own goroutine: the call hands its requests to every node before it returns and waits there
+		// for as long as a node's sender is wedged (known findings of C09)
+		var o corrObj
 		defer func() {
 			if p := recover(); p != nil {
-				fail("C11", "call returns a correctable", fmt.Sprint("panic: ", p), "")
+				started <- fmt.Sprint("panic: ", p)
+				return
 			}
+			obj = o
+			started <- ""
 		}()
-		obj = corrCall(cfg, c.method, ctx, req, perNode)
+		o = corrCall(cfg, c.method, ctx, req, perNode)
 	}()
+	select {
+	case pan := <-started:
+		if pan != "" {
+			fail("C11", "call returns a correctable", pan, "")
+		}
+	case <-time.After(10 * time.Second):
+		fail("C11", "call returns a correctable", "the call did not return within 10s", "")
+		return
+	}
 	if obj.raw == nil {
 		return
 	}
@@ -566,19 +588,17 @@ func runCorr(sh *shard, c *corrCase, expSnaps []string, sum *sumT) {
 		e := "none"
 		if err != nil {
 			e, _ = canonErr(err)
-			if caseHasCancel && strings.HasPrefix(e, "inc:") && strings.Contains(err.Error(), ": context canceled") {
-				// every outstanding request was answered locally with the context's own error before the
-				// loop noticed the context (see the qc engine and C08 finding ctx-end-reported-as-incomplete)
-				sum.count("ctx-end-reported-as-incomplete")
-				parts := strings.Split(e, ":")
-				var ids []string
-				texts := nodeErrTexts(err)
-				for _, id := range strings.Split(parts[1], ".") {
-					if id != "" && !strings.Contains(texts[id], "context canceled") {
-						ids = append(ids, id)
+			if caseHasCancel {
+				fed := map[string]bool{}
+				for _, a := range c.seq {
+					if a.kind == 'c' {
+						break
+					}
+					if a.kind == 'e' {
+						fed[strconv.Itoa(int(a.nid))] = true
 					}
 				}
-				e = "ctx:" + strings.Join(ids, ".") + ":" + parts[2]
+				e = ctxCanon(e, fed)
 			}
 		}
 		d := 0
